@@ -13,6 +13,7 @@ A package spec is a dict
 The spec grammar for `new` is the one of vlib/newgen.py (struct trees); the other shapes are kept simple on purpose
 (the richer per-area generators belong to the C04/C05/C06 checks).
 """
+import random
 import hashlib
 import json
 import os
@@ -356,11 +357,15 @@ def lower_first(s):
     return s.lower() if s.isupper() else s[:1].lower() + s[1:]
 
 
-def map_side(rng, fields, kind, typ):
-    """returns (go source of the struct, model side sexp, needs `shoot new`)"""
+def map_side(rng, fields, kind, typ, tags=None):
+    """returns (go source of the struct, model side sexp, needs `shoot new`); tags: field -> `map:"…"` tag (plain source sides)"""
     if kind == "plain":
-        src = "type %s struct {\n%s}\n" % (typ, "".join("\t%s int\n" % f for f in fields))
-        return src, [["fields"] + fields], False
+        tags = tags or {}
+        src = "type %s struct {\n%s}\n" % (typ, "".join("\t%s int%s\n" % (f, (' `map:"%s"`' % tags[f]) if f in tags else "") for f in fields))
+        side = [["fields"] + fields]
+        if tags:
+            side.append(["tags"] + [[f, tags[f]] for f in fields if f in tags])
+        return src, side, False
     # shoot-new type: unexported fields with accessors; occasionally one exported field as well
     lines, mfields, ctor, unexp = [], [], [], []
     for i, f in enumerate(fields):
@@ -384,11 +389,15 @@ def map_side(rng, fields, kind, typ):
 
 
 def build_map_pkg(rng, specs, extra_feats=()):
-    """specs: [(type name, src fields, src kind, dest fields, dest kind)] with kinds plain | new | new0"""
+    """specs: [(type name, src fields, src kind, dest fields, dest kind[, {src field: map tag}])] with kinds plain | new | new0"""
     src_decls, dest_decls, sides, new_src, new_dest, kinds = [], [], {}, [], [], {}
-    for nm, sf, sk, df, dk in specs:
+    tagged = 0
+    for spec in specs:
+        nm, sf, sk, df, dk = spec[:5]
+        tags = spec[5] if len(spec) > 5 else None
+        tagged += 1 if tags and sk == "plain" else 0
         kinds[nm] = (sk, dk)
-        s_src, s_side, s_new = map_side(rng, sf, sk, nm)
+        s_src, s_side, s_new = map_side(rng, sf, sk, nm, tags)
         d_src, d_side, d_new = map_side(rng, df, dk, nm)
         src_decls.append(s_src)
         dest_decls.append(d_src)
@@ -411,6 +420,10 @@ def build_map_pkg(rng, specs, extra_feats=()):
         feats["dest-" + dk] = 1
     for f in extra_feats:
         feats[f] = 1
+    if tagged:
+        feats["map-modelled-tags"] = 1
+        if tagged < len([1 for sp in specs if sp[2] == "plain"]):
+            feats["map-modelled-tags-some-types-only"] = 1
 
     def model(order_names, mode="combined", disk=(), orig=None, leaks="today"):
         p = [["cmd", "map"], ["leaks", leaks], ["mode", mode],
@@ -446,7 +459,22 @@ def gen_map_pkg(rng, force=None):
         r = rng.random()
         dk = "new" if r < p_new else ("new0" if r < p_new * 1.4 else "plain")
         specs.append((nm, sf, sk, df, dk))
-    return build_map_pkg(rng, specs)
+    # `map:"G"` tags on fields of SOME plain source types (the field names come from one pool of eight, so the other types of the
+    # package have fields of the same names without a tag): the tag map belongs to one type (model: MSt.tagMap / Leaks.mapTag).
+    # Decided by a generator of its own, seeded from the package, so that the stream of `rng` is the same with and without tags
+    r2 = random.Random("tags:" + repr(specs))
+    p_tag = force.get("p_tag", 0.35)
+    out = []
+    for k, (nm, sf, sk, df, dk) in enumerate(specs):
+        tags = {}
+        if sk == "plain" and (r2.random() < p_tag or (force.get("tag_first") and k == 0)):
+            f = r2.choice(sf)
+            g = r2.choice([x for x in MAP_FIELDS if x != f])
+            tags[f] = g
+            if dk == "plain" and g not in df and r2.random() < 0.7:
+                df = df + [g]              # the destination has a field of the tag's name (else the tagged field stays unmapped)
+        out.append((nm, sf, sk, df, dk, tags))
+    return build_map_pkg(rng, out)
 
 
 def gen_map_rich_pkg(rng, force=None):
@@ -478,6 +506,11 @@ def gen_map_rich_pkg(rng, force=None):
         elif shared == "dash":
             sf[1] = "\tName string `map:\"-\"`"
             feats.add("dash-on-shared-name")
+        # the same one level down: the tag sits on a field of an EMBEDDED struct (extractStructFields fills the same tag map); the
+        # other types of the run embed a struct of their own with an untagged field of that name (no extra draw: `r` decides)
+        nested = (k == 0) if force.get("tagshared") else (0.35 <= r < 0.5 and "embed" in feats)
+        if force.get("tagshared") and k in (0, n - 1):
+            feats.add("embed")
         allfeats.update(f for f in feats if f.endswith("shared-name"))
         if "func" in feats:
             src_first = ["\tConv"]
@@ -493,8 +526,11 @@ def gen_map_rich_pkg(rng, force=None):
             sf.append("\tSrcLabel string `map:\"Label\"`")
             df.append("\tLabel string")
         if "embed" in feats:
-            src.append("type %sBase struct {\n\tAge int\n\tNote string\n}\n" % nm)
-            dst.append("type %sBase struct {\n\tAge int\n\tNote string\n}\n" % nm)
+            note_s, note_d = ("\tNote string `map:\"Remark\"`", "\tRemark string") if nested else ("\tNote string", "\tNote string")
+            if nested:
+                allfeats.add("nested-tag-on-shared-name")
+            src.append("type %sBase struct {\n\tAge int\n%s\n}\n" % (nm, note_s))
+            dst.append("type %sBase struct {\n\tAge int\n%s\n}\n" % (nm, note_d))
             sf.append("\t%sBase" % nm)
             df.append("\t%sBase" % nm)
             all_types.append(nm + "Base")
@@ -519,6 +555,100 @@ def gen_map_rich_pkg(rng, force=None):
         feats["map-" + f] = 1
     return {"cmd": "map", "flags": ["-path=../dest"], "files": files, "cwd": "src", "gofile": "s.go", "types": names,
             "all_types": all_types, "setup": [], "model": simple_model(bodies), "feats": feats, "star": False, "rich": True}
+
+
+def hand_map_tag_pkgs():
+    """`shoot map` over source types that SHARE field names (Name, Title, Label, Rank) where only some carry a `map:` tag: a rename
+    (`map:"Title"`), a left-out field (`map:"-"`), tags one level down in an embedded struct.  The tag map and the set of left-out
+    names belong to ONE type: the untagged fields of the other types keep their own names whatever was generated before them.
+    Two packages, the tagged types first / last in the -type list (the combined run is compared with one process per type in the
+    same order, with a permuted list, with -file= and -file= -sep)."""
+    src = """package src
+
+type Article struct {
+	ID   int
+	Name string `map:"Title"`
+	Body string
+}
+
+type Author struct {
+	ID    int
+	Name  string
+	Title string
+}
+
+type Tag struct {
+	ID   int
+	Name string `map:"-"`
+	Body string
+}
+
+type Meta struct {
+	Label string `map:"Caption"`
+	Rank  int    `map:"-"`
+}
+
+type Post struct {
+	ID int
+	Meta
+}
+
+type Plain struct {
+	ID    int
+	Label string
+	Rank  int
+	Name  string
+}
+"""
+    dst = """package dest
+
+type Article struct {
+	ID    int
+	Title string
+	Body  string
+}
+
+type Author struct {
+	ID    int
+	Name  string
+	Title string
+}
+
+type Tag struct {
+	ID   int
+	Name string
+	Body string
+}
+
+type Meta struct {
+	Caption string
+	Rank    int
+}
+
+type Post struct {
+	ID int
+	Meta
+}
+
+type Plain struct {
+	ID      int
+	Label   string
+	Caption string
+	Rank    int
+	Name    string
+	Title   string
+}
+"""
+    out = []
+    decl = ["Article", "Author", "Tag", "Meta", "Post", "Plain"]
+    for label, types in (("tagged-first", ["Article", "Tag", "Post", "Author", "Plain"]),
+                         ("tagged-last", ["Plain", "Author", "Post", "Tag", "Article"])):
+        bodies = {t: "gen" for t in decl}
+        out.append({"cmd": "map", "flags": ["-path=../dest"], "files": {"src/s.go": src, "dest/d.go": dst}, "cwd": "src", "gofile": "s.go",
+                    "types": types, "all_types": decl, "setup": [], "model": simple_model(bodies),
+                    "feats": {"map": 1, "map-rich": 1, "types-5": 1, "hand-map-tags-" + label: 1, "map-tag-on-shared-name": 1,
+                              "map-dash-on-shared-name": 1, "map-nested-tag-on-shared-name": 1}, "star": False, "rich": True})
+    return out
 
 
 def hand_map_pkgs(rng):
